@@ -365,6 +365,24 @@ def rule_RE(run: Run) -> RuleResult:
                 if not empty:
                     ok3, d3 = False, f"del {e.text} on a path that did not establish the stack is empty (conditions {[c[0] for c in p.conds]}): a nested entry of the same runtime loses its saved runtime"
     res.add("labrea.runtime.Runtime.__exit__:per-thread stack discarded only when empty", ok3, f, ex.lineno, d3, nec)
+    # a subclass that brings its own entry/exit bookkeeping is held to the same rule: nothing about one entry is kept in a
+    # single attribute of the (shared, re-enterable) object
+    for ci in run.repo.classes.values():
+        if ci is rt or not ci.is_subclass_of(rt.qualname) or ci.module.name.startswith("labrea.mypy"):
+            continue
+        for mn in ("__enter__", "__exit__"):
+            sfn = ci.methods.get(mn)
+            if sfn is None:
+                continue
+            from .interp import analyse_function as _af
+            bad = None
+            for p in _af(Ctx(run.repo), ci.module, sfn, cls=ci):
+                for e in p.events:
+                    if e.kind == "store" and len(e.args) == 2 and e.args[0].key() in SELF_KEYS and isinstance(e.args[1], Const):
+                        bad = bad or (e.line, f"self.{e.args[1].v} = {e.target.key()[:50] if e.target is not None else '?'}")
+            res.add(f"{ci.qualname}.{mn}:keeps no per-entry state in a single attribute", bad is None, ci.module.relpath, bad[0] if bad else sfn.lineno,
+                    "no attribute of the object is written on entry or exit" if bad is None else
+                    f"{bad[1]} (line {bad[0]}): the object can be entered again while active (nesting, another thread); the second entry overwrites what the first needs", nec)
     return res
 
 
@@ -523,6 +541,27 @@ def rule_DF(run: Run) -> RuleResult:
 MUT = {"update", "setdefault", "pop", "popitem", "clear", "__setitem__", "__delitem__"}
 
 
+def _current_runtime_callers(run: Run):
+    """(qualname, line) of every call of the function that reads the thread -> runtime table for the current thread."""
+    m, rt = _rt(run)
+    cur = None
+    for q, fi in run.repo.functions.items():
+        if fi.module is m and any(isinstance(x, ast.Call) and isinstance(x.func, ast.Attribute) and x.func.attr == "setdefault" and isinstance(x.func.value, ast.Name)
+                                  and x.func.value.id == TABLE for x in ast.walk(fi.node)):
+            cur = fi
+    if cur is None:
+        return None, []
+    out = []
+    for mm, cls, fn, q in iter_functions(run.repo):
+        if mm.name.startswith("labrea.mypy") or fn is cur.node:
+            continue
+        for c in astu.calls_in(fn):
+            r_ = run.repo.resolve_expr(mm, c.func) if isinstance(c.func, (ast.Name, ast.Attribute)) else None
+            if r_ and r_[0] == "func" and r_[1] is cur:
+                out.append((q, c.lineno))
+    return cur, out
+
+
 def rule_HI(run: Run) -> RuleResult:
     res = RuleResult("R-HI")
     m, rt = _rt(run)
@@ -546,6 +585,50 @@ def rule_HI(run: Run) -> RuleResult:
                 res.add(f"{q}:{s.func.attr} on .handlers", False, mm.relpath, s.lineno, ast.unparse(s)[:80], nec)
     if n == 0:
         raise AnalysisError("Runtime.handlers is never assigned (anchor vanished)")
+    # the current runtime is looked up at the moment a request is issued or a runtime is derived — by Request.run and the
+    # module-level handle(), nowhere else: code that captures it (in a closure, on an object) serves later requests from a scope
+    # that may have ended, and code that enters it interleaves with the caller's own with-blocks
+    cur, callers = _current_runtime_callers(run)
+    if cur is None:
+        raise AnalysisError("the function that reads the current thread's runtime was not found (anchor vanished)")
+    for q, line in callers:
+        ok = q.endswith("Request.run") or q == f"{m.name}.handle"
+        res.add(f"{q}:reads the current runtime", ok, run.repo.functions[q].module.relpath if q in run.repo.functions else m.relpath, line,
+                "at the moment of the request / of the derivation" if ok else
+                f"{cur.name}() called outside Request.run and handle(): the runtime found now is used (or entered) later, when another scope may be active",
+                "a request is served by the runtime that is current when it is issued (C14); capturing the current runtime moves that moment")
+    if len(callers) < 2:
+        raise AnalysisError(f"only {len(callers)} callers of {cur.name}() found (Request.run and handle expected)")
+    # installing handlers is the user's business: no library function enters a runtime (with handle(...) / disabled() / Runtime(...))
+    # on its own — inside such a block the user's handlers for the re-bound request types are shadowed
+    n_with = 0
+    for mm, cls, fn, q in iter_functions(run.repo):
+        if mm.name.startswith("labrea.mypy"):
+            continue
+        for w in astu.walk_no_nested(fn):
+            if not isinstance(w, (ast.With, ast.AsyncWith)):
+                continue
+            for it in w.items:
+                ce = it.context_expr
+                f0 = ce.func if isinstance(ce, ast.Call) else ce
+                r_ = run.repo.resolve_expr(mm, f0) if isinstance(f0, (ast.Name, ast.Attribute)) else None
+                tgt = None
+                if r_ and r_[0] == "func" and (r_[1].name in ("handle", "disabled") or r_[1] is cur):
+                    tgt = r_[1].qualname
+                elif r_ and r_[0] == "class" and (r_[1] is rt or r_[1].is_subclass_of(rt.qualname)):
+                    tgt = r_[1].qualname
+                elif isinstance(f0, ast.Attribute) and f0.attr in ("handle", "disabled") and isinstance(ce, ast.Call):
+                    r2 = run.repo.resolve_expr(mm, f0.value) if isinstance(f0.value, (ast.Name, ast.Attribute)) else None
+                    if r2 and r2[0] == "module":
+                        r3 = run.repo.resolve_name(run.repo.modules[r2[1]], f0.attr)
+                        if r3 and r3[0] == "func":
+                            tgt = r3[1].qualname
+                if tgt is not None:
+                    n_with += 1
+                    res.add(f"{q}:enters a runtime of its own", False, mm.relpath, w.lineno,
+                            f"with {ast.unparse(ce)[:50]} inside library code: handlers the caller installed for the re-bound request types are shadowed there",
+                            "every operation of an evaluation is observable by a handler the user installed (C18); a library-made scope hides some of them")
+    res.count("library_with_runtime", n_with)
     hf = rt.methods.get("handle")
     if hf is None:
         raise AnalysisError("Runtime.handle not found")
@@ -785,6 +868,18 @@ def rule_CW(run: Run) -> RuleResult:
                 if (cls is not None and cls.name == "Overloaded") or "overloads" in recv:
                     n += 1
                     res.add(f"{q}:in-place {s.func.attr} on the overload table", False, mm.relpath, s.lineno, ast.unparse(s)[:80], nec)
+    # only the object itself re-binds its table: code elsewhere that assigns <something>.lookup = … (a saved snapshot written
+    # back, a merged copy) does so outside the object's lock and overwrites registrations made in between
+    for mm, cls, fn, q in iter_functions(repo):
+        if mm.name.startswith("labrea.mypy"):
+            continue
+        for s_ in astu.walk_no_nested(fn):
+            if isinstance(s_, (ast.Assign, ast.AugAssign, ast.AnnAssign)):
+                for t in (s_.targets if isinstance(s_, ast.Assign) else [s_.target]):
+                    if isinstance(t, ast.Attribute) and t.attr == "lookup" and not (isinstance(t.value, ast.Name) and t.value.id == astu.first_param(fn) and cls is not None):
+                        n += 1
+                        res.add(f"{q}:re-binds another object's overload table", False, mm.relpath, s_.lineno,
+                                f"{ast.unparse(s_)[:80]}: the table of {ast.unparse(t.value)} is replaced from outside, without its lock", nec)
     reg = ov.methods.get("register")
     if reg is None:
         raise AnalysisError("Overloaded.register not found")
@@ -858,6 +953,22 @@ def rule_CW(run: Run) -> RuleResult:
         ok_a = ok_a and seen_kinds == {True, False}
     res.add("labrea.dataset.Dataset.overload:a single alias is registered whole, a list element-wise", ok_a, ds.module.relpath, ovl.lineno if ovl else 0,
             why_a or "alias -> [alias] unless it is a list", nec)
+    # the dataset built for a plain-function implementation takes nothing over from the dataset it implements: the parent's
+    # wrappers (effects, callback, pre-set options, cache) already surround whichever implementation the dispatch selects
+    if ovl is not None:
+        ok_p, why_p, n_built = True, "", 0
+        for p in analyse_method_result_call(Ctx(repo), ds, "overload", [_Sym("func")]):
+            for e in p.events:
+                if e.kind == "call" and e.text in ("labrea.dataset.dataset", "dataset", "labrea.dataset.Dataset", "new Dataset") and e.args:
+                    n_built += 1
+                    carried = [a.key()[:50] for a in e.args[1:] if "Child(" in a.key()]
+                    if carried or e.args[0].key() != "func":
+                        ok_p = False
+                        why_p = f"built as dataset({', '.join(a.key()[:40] for a in e.args)}): {carried or e.args[0].key()[:40]} comes from the dataset being overloaded (line {e.line})"
+        res.add("labrea.dataset.Dataset.overload:the implementation dataset carries nothing of its parent", ok_p and n_built > 0, ds.module.relpath, ovl.lineno,
+                why_p or "dataset(func): effects, callback, options and cache of the parent apply around the selected implementation, once",
+                "what the parent attaches (effects, callback, pre-set options) wraps the selected implementation already; an implementation that carries "
+                "a copy applies it twice for one body execution (C02, C07)")
     sd = ds.methods.get("set_dispatch")
     ok = False
     if sd is not None:
@@ -909,5 +1020,14 @@ def rule_TI(run: Run) -> RuleResult:
                 and a.value.key().startswith(f"call:get({T_KEY},{params[0]}"):
             ok = True
     ih = run.repo.func("labrea.runtime.inherit")
-    res.add("labrea.runtime.inherit:copies the parent's current runtime into the caller's slot", ok, m.relpath, ih.node.lineno, "", nec)
+    # … on every path: an inherit() that leaves an existing entry in place keeps the runtime a reused worker thread was given earlier
+    d_inh = ""
+    for p in _paths_of(run, m, ih.node, None):
+        if p.status != "ret":
+            continue
+        wrote = any(wr and key is not None and key.key() == OWN_THREAD for e, meth, key, val, wr in _table_events(p, T_KEY))
+        if not wrote:
+            ok = False
+            d_inh = f"a returning path leaves the caller's slot as it is (conditions {[c[0][:40] for c in p.conds]})"
+    res.add("labrea.runtime.inherit:copies the parent's current runtime into the caller's slot", ok, m.relpath, ih.node.lineno, d_inh, nec)
     return res
